@@ -6,7 +6,7 @@
 From Coq Require Import ZArith List Bool.
 From V Require Import base.Cal posix.PTime posix.RDelta posix.TzParseModel posix.TzRangeModel
      posix.PosixSpec posix.TzLocalModel posix.TransThm posix.MainThm posix.PosixThm
-     posix.ParseThm posix.ParseFull posix.RejectThm posix.LocalThm posix.WallThm.
+     posix.ParseThm posix.ParseFull posix.RejectThm posix.RejectFull posix.LocalThm posix.WallThm posix.SpecThm posix.FoldThm.
 Import ListNotations.
 Open Scope Z_scope.
 
@@ -25,6 +25,30 @@ Theorem C08_tzstr_posix : forall r po u,
     observe_utc z u = Ok (let '(o, d, n) := posix_observe r u in mkObs (u + o) f o d (Some n)).
 Proof. exact tzstr_posix_lemma. Qed.
 Print Assumptions C08_tzstr_posix.
+
+(* MAIN with the fold flag pinned: posix_fold r u (FoldThm.v) = "standard time is in force at u
+   and daylight time was in force one saving earlier" = u is the LATER of the two instants that
+   show the same wall reading (PEP 495).  The complete observable result of
+   datetime(u, tzinfo=UTC).astimezone(tzstr) -- wall reading, fold, offset, dst, abbreviation --
+   is what POSIX prescribes, for every rule in the guard and every instant. *)
+Theorem C08_tzstr_posix_fold : forall r po u,
+  guard r = true -> (po = true \/ not_gmt_utc r.(p_name) = true) ->
+  exists z, tzstr_of_res (Ok (Some (ast_of_posix r))) po = Ok z /\
+    observe_utc z u =
+      Ok (let '(o, d, n) := posix_observe r u in mkObs (u + o) (posix_fold r u) o d (Some n)).
+Proof. exact tzstr_posix_fold_lemma. Qed.
+Print Assumptions C08_tzstr_posix_fold.
+
+(* the executable specification IS the declarative one: latest_event r ds u t b (SpecThm.v) says
+   that (t, b) is an event of SOME year (b = true: start, false: end), t <= u, and every event of
+   ANY year at or before u is <= t.  Inside guard_apart such a latest event exists and
+   posix_isdst r u is its kind -- "daylight time iff the latest event <= u is a start", no
+   hemisphere cases, no window of years. *)
+Theorem C08_spec_is_declarative : forall r ds,
+  r.(p_dst) = Some ds -> wf_posix r = true -> guard_apart r = true ->
+  forall u, exists t b, latest_event r ds u t b /\ posix_isdst r u = b.
+Proof. exact spec_is_declarative. Qed.
+Print Assumptions C08_spec_is_declarative.
 
 (* MAIN (wall readings): wall_instant r w f (PosixSpec.v) is the instant a wall reading with a fold
    flag denotes by PEP 495: the only candidate of a normal reading; of the two candidates of an
@@ -75,6 +99,13 @@ Theorem C08_no_dst_fixed : forall z u,
 Proof. exact no_dst_fixed_lemma. Qed.
 Print Assumptions C08_no_dst_fixed.
 
+(* 'UTC' / 'GMT' without an offset: fixed zones at offset 0 (a TypeError before /repo fix edf5097) *)
+Theorem C08_gmt_utc_without_offset :
+  forallb (fun name => fixed_zone_is (tzstr_init name false) name 0 &&
+                       fixed_zone_is (tzstr_init name true) name 0) [GMT; UTC] = true.
+Proof. exact gmt_utc_bare_lemma. Qed.
+Print Assumptions C08_gmt_utc_without_offset.
+
 (* 'GMT+h' / 'UTC+h' are h hours AHEAD of UTC, behind with posix_offset=True (0 <= h < 100:
    every hour the two-digit grammar can write; finite reflection over the stated bound) *)
 Theorem C08_gmt_plus_h_reading : forall h, 0 <= h < 100 -> gmt_check h = true.
@@ -116,6 +147,18 @@ Theorem C08_tzstr_rejects_unparsed : forall s po,
 Proof. exact tzstr_rejects_unparsed_lemma. Qed.
 Print Assumptions C08_tzstr_rejects_unparsed.
 
+(* three malformed classes for EVERY well-formed rule with a daylight part and both posix_offset
+   values: the end rule missing, a surplus '/2' field after the end rule, an unknown character
+   ('#') in front of the start rule -- the strings are built from the rule's canonical rendering
+   (RejectFull.v: str_missing_end, str_surplus_time, str_unknown_char) *)
+Theorem C08_tzstr_rejects_classes : forall r ds po,
+  r.(p_dst) = Some ds -> wf_posix r = true ->
+  tzstr_init (str_missing_end r ds) po = Err EValue /\
+  tzstr_init (str_surplus_time r ds) po = Err EValue /\
+  tzstr_init (str_unknown_char r ds) po = Err EValue.
+Proof. exact tzstr_rejects_classes. Qed.
+Print Assumptions C08_tzstr_rejects_classes.
+
 (* ... and the malformed classes of the property (missing end rule, surplus rule, surplus /time,
    unknown characters, '/' without time, surplus and missing M field; RejectThm.v) on the finite
    family rej_family (864 rules) by computation.  FULL STATEMENT (not proved in full): the same for
@@ -136,15 +179,28 @@ Theorem C08_tzlocal_faithful_to_libc : forall libc std alt sn dn, alt <> std -> 
 Proof. exact tzlocal_faithful_utc. Qed.
 Print Assumptions C08_tzlocal_faithful_to_libc.
 
-(* ... hence what POSIX prescribes when the C library implements the rule (the C library itself
-   is trusted, not verified: this is the partial part), at every instant, for every rule -- no
-   guard: tzlocal has neither the D8 nor the negative-saving defect *)
+(* ... hence what POSIX prescribes when the C library implements the rule, at every instant, for
+   every rule with a POSITIVE saving (no D8 guard, no distance guard).  Partial: the C library is
+   trusted, not verified; and for a negative saving CPython's time.timezone/altzone/tzname are not
+   the (isdst=0, isdst=1) pair this instantiation assumes -- there tzlocal is wrong all year
+   (finding F-C08-4, reproduced under TZ=Europe/Dublin). *)
 Theorem C08_tzlocal_posix_partial : forall r u,
-  (forall ds, r.(p_dst) = Some ds -> ds.(d_off) <> r.(p_off)) ->
+  (forall ds, r.(p_dst) = Some ds -> r.(p_off) < ds.(d_off)) ->
   exists f, tzlocal_observe_utc r u =
     (let '(o, d, n) := posix_observe r u in (u + o, f, o, d, n)).
-Proof. exact tzlocal_posix_utc_lemma. Qed.
+Proof. exact tzlocal_posix_utc_pos_lemma. Qed.
 Print Assumptions C08_tzlocal_posix_partial.
+
+(* F-C08-4, as a theorem about the faithful model: with the pair CPython's time module provides
+   (smaller offset, larger offset) and a negative saving, tzlocal reports the wrong offset and
+   abbreviation *)
+Theorem C08_tzlocal_negative_dst_refuted :
+  exists r u, wf_posix r = true /\
+    (exists ds, r.(p_dst) = Some ds /\ ds.(d_off) < r.(p_off)) /\
+    let '(_, _, o, _, n) := tzlocal_observe_utc r u in
+    let '(o', _, n') := posix_observe r u in o <> o' /\ n <> n'.
+Proof. exact tzlocal_negative_dst_refuted_lemma. Qed.
+Print Assumptions C08_tzlocal_negative_dst_refuted.
 
 (* wall readings through tzlocal: a reading that denotes an instant (normal, or ambiguous with
    its fold: fold=0 the earlier, fold=1 the later instant) observes what POSIX prescribes there *)
